@@ -24,6 +24,7 @@ package crypto
 //@   requires publicKey != nil
 //@   modifies nothing
 //@   ensures result <==> SigOK(seq(*publicKey), seq(message), seq(sig))
+//@   ensures result <==> SigValid(*publicKey, message, sig) -- C34: the same predicate over the VALUES (SigValid is declared in zz_contracts_c34_verif.go)
 
 //@ assume func (k Key) DeterministicHashDerive
 //@   -- NewKeyFromSeed(sha3(k) || sha3(k)): reduces mod l, so the result is a canonical scalar
@@ -44,3 +45,4 @@ package crypto
 //@   requires privateKey != nil
 //@   modifies nothing
 //@   ensures seq(result) == SignOf(seq(*privateKey), seq(message))
+//@   ensures result == SigOf(*privateKey, message) -- C34: the same function over the VALUES (SigOf is declared in zz_contracts_c34_verif.go)
